@@ -148,7 +148,9 @@ def is_relevant(node):
                 return True
             if nodes.contains(node[2], is_seq_type):
                 return True
-        elif node.get_ident() in ['declare-fun', 'define-fun', 'define-sort']:
+        elif node.get_ident() in [
+                'declare-fun', 'define-fun', 'define-fun-rec', 'define-sort'
+        ]:
             # parameter sorts (node[2]) and result sort (node[3])
             if len(node) < 4:
                 return False
@@ -159,5 +161,16 @@ def is_relevant(node):
             if nodes.contains(node[3], is_seq_type):
                 return True
             if nodes.contains(node[2], is_seq_type):
+                return True
+        elif node.get_ident() in [
+                'define-funs-rec', 'declare-datatype', 'declare-datatypes'
+        ]:
+            # sorts in the signatures of the functions (node[1]) / in the
+            # fields of the constructors (node[2])
+            idx = 1 if node.get_ident() == 'define-funs-rec' else 2
+            if len(node) <= idx:
+                return False
+            if nodes.contains(node[idx], lambda t: t == 'String') or nodes.contains(
+                    node[idx], is_seq_type):
                 return True
     return False
